@@ -106,4 +106,21 @@ theorem TInv.push {hash : Bytes → UInt64} {S S' : Nat → Option Bytes} {n : N
     · have := h3 e he; omega
     · simp
 
+
+theorem tableFind_cases (env : Env) (read : Loc → Option Bytes) (strings : List StrRef) (t : Table) (x : Bytes) :
+    (∃ o, tableFind env read strings t x = .ok o) ∨ tableFind env read strings t x = .fault .oobIndex := by
+  unfold tableFind
+  split
+  · exact Or.inl ⟨_, rfl⟩
+  · exact Or.inr rfl
+
+theorem tableInsert_cases (t : Table) (h : UInt64) (k : Nat) (grow : Bool) (rehash : Nat → Option UInt64) :
+    (∃ t', tableInsert t h k grow rehash = .ok t') ∨ tableInsert t h k grow rehash = .fault .oobIndex := by
+  unfold tableInsert
+  split
+  · split
+    · exact Or.inl ⟨_, rfl⟩
+    · exact Or.inr rfl
+  · exact Or.inl ⟨_, rfl⟩
+
 end Lasso
